@@ -61,6 +61,9 @@ structure State where
   registry : List Nat
   /-- `len(repr(x))` for the floats that occur (supplied by the harness) -/
   flen : List ((Int × Nat) × Nat)
+  /-- files whose next writes fail with `OSError` (disk full, directory gone): an environment
+  condition, switched by the history -/
+  failing : List Nat := []
 deriving Repr, Inhabited
 
 def defaultCapacity : Buffering → Nat
@@ -188,6 +191,10 @@ def loadFromResource (s : State) (o : Obj) : Option J := s.store o.res
 
 def saveToResource (s : State) (o : Obj) : State := s.writeFile o.res (s.root o).toBase
 
+/-- `_save_to_resource()` in an environment where writing some files fails -/
+def trySave (s : State) (o : Obj) : State × Option Err :=
+  if s.failing.contains o.res then (s, some (.other "OSError")) else (saveToResource s o, none)
+
 /-! ### single-collection flush, both strategies -/
 
 /-- `SerializedFileBufferedCollection._flush(force)`; `some .metadataError` when the file
@@ -205,7 +212,10 @@ def flushSer (s : State) (oi : Nat) (o : Obj) (force : Bool) : State × Option E
           let (s1, err) := mergeInto s oi o e.contents
           match err with
           | some er => (fin s1, some er)
-          | none => (fin (saveToResource s1 o), none)
+          | none =>
+            -- the write may fail: the `finally` clause still drops the entry
+            let (s2, werr) := trySave s1 o
+            (fin s2, werr)
       else (fin s, none)
   else (s, none)
 
@@ -233,8 +243,10 @@ def flushMem (s : State) (oi : Nat) (o : Obj) (force : Bool) : State × Option E
           -- self._data = cached_data["contents"]; self._save_to_resource();
           -- if force: metadata := metadata of the file just written
           let o' := { o with cell := e.cell }
-          let s1 := saveToResource (s.setObj oi o') o'
-          (fin s1 (if force then { e with fmeta := s1.stat o.res } else e), none)
+          let (s1, werr) := trySave (s.setObj oi o') o'
+          match werr with
+          | some er => (fin s1 e, some er)
+          | none => (fin s1 (if force then { e with fmeta := s1.stat o.res } else e), none)
       else (fin s e, none)
   else
     -- still buffered and not forced: stop sharing the top-level container; the nested
@@ -268,6 +280,8 @@ def flushBufferLoop (force : Bool) (retain : Bool) :
         let (s1, err) := flushOne s oi force
         match err with
         | some (.other "MetadataError") =>
+          flushBufferLoop force retain rest s1 remaining' (issues ++ [o.res])
+        | some (.other "OSError") =>
           flushBufferLoop force retain rest s1 remaining' (issues ++ [o.res])
         | _ => flushBufferLoop force retain rest s1 remaining' issues
 
@@ -374,7 +388,7 @@ def save (s : State) (oi : Nat) : State × Option Err :=
           | none => { (initEntryMem s0 o true) with size := s0.size + 1 }
         if s1.size > s1.capacity then flushBuffer s1 true else (s1, none)
       | .none => (s0, none)
-    else (saveToResource s o, none)
+    else trySave s o
 
 /-! ### contexts -/
 
@@ -502,6 +516,8 @@ inductive Step where
   | openObj (isDict : Bool) (res : Nat) (data : Option J)
   | ext (res : Nat) (d : J)
   | extDel (res : Nat)
+  /-- from now on, writing these files fails with `OSError` (`[]`: the disk works again) -/
+  | setFailing (rs : List Nat)
 
 def step (s : State) : Step → State
   | .call h op => (call s h op).1
@@ -513,6 +529,7 @@ def step (s : State) : Step → State
   | .openObj d r data => (openObj s d r data).1
   | .ext r d => extWrite s r d
   | .extDel r => s.deleteFile r
+  | .setFailing rs => { s with failing := rs }
 
 def run (s : State) (steps : List Step) : State := steps.foldl step s
 
